@@ -1,4 +1,103 @@
 import Model
+import Proofs.C03
+
+/-
+  C03 — documents are accepted only from successful JSON responses via bounded redirects;
+  the cache is transparent.  Property theorems only; helper lemmas live in Proofs/C03.lean.
+-/
+
 namespace C03
-theorem placeholder : True := trivial
+open Jtp
+
+variable {Doc : Type}
+
+/-- What a tolerated header block looks like: the lines before the first blank line; every
+    Content-Type line parses to a tolerated type and there is at least one. -/
+def HeadersOk (tolerated : List Str) (lines : List Str) : Prop :=
+  (∀ l ∈ lines, match parseContentType l with
+    | .notCT => True
+    | .bad => False
+    | .ok m => m.matchesAny tolerated = true) ∧
+  (∃ l ∈ lines, ∃ m, parseContentType l = .ok m)
+
+/-- (1a) `validateHeaders` accepts exactly the tolerated, terminated header blocks, and hands on
+    exactly the bytes after the blank line. -/
+theorem validateHeaders_iff (tolerated : List Str) (s body : Str) :
+    validateHeaders tolerated (s.length + 1) s false = some body ↔
+      ∃ lines, splitHeaders (s.length + 1) s = some (lines, body) ∧ HeadersOk tolerated lines := by
+  exact Jtp.validateHeaders_iff' tolerated s body
+
+/-- (1b) An exchange yields a document iff the status line is well-formed with status 200–203
+    and the header block is tolerated and terminated; the body is what follows the blank line. -/
+theorem exchange_doc_iff (tolerated : List Str) (resp body : Str) :
+    exchange tolerated resp = .doc body ↔
+      ∃ sl rest status lines, readLine resp = some (sl, rest) ∧ parseStatusLine sl = some status ∧
+        status ∈ okStatuses ∧ splitHeaders (rest.length + 1) rest = some (lines, body) ∧
+        HeadersOk tolerated lines := by
+  exact Jtp.exchange_doc_iff' tolerated resp body
+
+/-- A redirect is recognised iff the status starts with `3` and the header block has a Location
+    line before its end. -/
+theorem exchange_redirect_iff (tolerated : List Str) (resp v : Str) :
+    exchange tolerated resp = .redirect v ↔
+      ∃ sl rest status, readLine resp = some (sl, rest) ∧ parseStatusLine sl = some status ∧
+        status.head? = some '3' ∧ findLocation (rest.length + 1) rest = some v := by
+  exact Jtp.exchange_redirect_iff' tolerated resp v
+
+/-- A well-formed status line is `HTTP/1.d SP ddd …\n`; the status is its three digits. -/
+theorem statusLine_shape (line status : Str) (h : parseStatusLine line = some status) :
+    ∃ d a b c rest, line = "HTTP/1.".toList ++ d :: ' ' :: a :: b :: c :: rest ∧ status = [a, b, c] ∧
+      d.isDigit = true ∧ a.isDigit = true ∧ b.isDigit = true ∧ c.isDigit = true ∧
+      rest.getLast? = some '\n' := by
+  exact Jtp.statusLine_shape' line status h
+
+/-- The chain relation is deterministic. -/
+theorem chain_functional (env : Env Doc) (tol : List Str) (u : Url) (k k' : Nat) (d d' : Doc) (s s' : Url)
+    (h : Chain env tol u k d s) (h' : Chain env tol u k' d' s') : k = k' ∧ d = d' ∧ s = s' := by
+  exact Jtp.chain_functional' env tol u k k' d d' s s' h h'
+
+/-- (2) With any sound cache (in particular the empty one) a fetch with budget `b` succeeds
+    exactly when a redirect chain of at most `b` https hops ends in a tolerated document; the
+    reported source is the URL of that final response; the cache stays sound. -/
+theorem get_iff_chain (env : Env Doc) (tol : List Str) (b : Nat) (c : Cache Doc) (u : Url)
+    (hs : Sound env tol c) (d : Doc) (src : Url) :
+    ((∃ st, st = get env tol b c u ∧ st.res = .ok d src) ↔ ∃ k, k ≤ b ∧ Chain env tol u k d src) := by
+  exact Jtp.get_iff_chain' env tol b c u hs d src
+
+theorem get_keeps_sound (env : Env Doc) (tol : List Str) (b : Nat) (c : Cache Doc) (u : Url)
+    (hs : Sound env tol c) : Sound env tol (get env tol b c u).cache := by
+  exact (Jtp.get_spec env tol b c u hs).1
+
+/-- Any other world yields an error and no document — stated as the contrapositive of (2): if no
+    chain within the budget exists (other status, missing/foreign content type, undecodable body,
+    redirect without Location, non-https hop, chain too long or cyclic), the result is `err`. -/
+theorem get_err_of_no_chain (env : Env Doc) (tol : List Str) (b : Nat) (c : Cache Doc) (u : Url)
+    (hs : Sound env tol c) (hno : ¬ ∃ k d src, k ≤ b ∧ Chain env tol u k d src) :
+    ∃ st, st = get env tol b c u ∧ (match st.res with | .err => True | .ok _ _ => False) := by
+  exact Jtp.get_err_of_no_chain' env tol b c u hs hno
+
+/-- At most one request per allowed hop, and only to https URLs. -/
+theorem get_requests_bounded (env : Env Doc) (tol : List Str) (b : Nat) (c : Cache Doc) (u : Url) :
+    (get env tol b c u).requests.length ≤ b + 1 ∧
+    ∀ r ∈ (get env tol b c u).requests, env.https r = true := by
+  exact Jtp.get_requests env tol b c u
+
+/-- Eviction cannot break soundness: every sub-cache of a sound cache is sound. -/
+theorem sound_sub (env : Env Doc) (tol : List Str) (c c' : Cache Doc) (hs : Sound env tol c)
+    (hsub : ∀ e, e ∈ c'.entries → e ∈ c.entries) : Sound env tol c' := by
+  exact Jtp.sound_sub' env tol c c' hs hsub
+
+theorem sound_empty (env : Env Doc) (tol : List Str) (cap : Nat) : Sound env tol ({ cap := cap } : Cache Doc) := by
+  exact Jtp.sound_empty' env tol cap
+
+/-- (3) Cache transparency: with unchanged servers, for every cache reachable by any fetches and
+    any evictions (= any sound cache, of any capacity), the result equals the cold-cache result. -/
+theorem cache_transparent (env : Env Doc) (tol : List Str) (b : Nat) (c c' : Cache Doc) (u : Url)
+    (hs : Sound env tol c) (hs' : Sound env tol c') :
+    (match (get env tol b c u).res, (get env tol b c' u).res with
+     | .ok d s, .ok d' s' => d = d' ∧ s = s'
+     | .err, .err => True
+     | _, _ => False) := by
+  exact Jtp.cache_transparent' env tol b c c' u hs hs'
+
 end C03
